@@ -122,6 +122,10 @@ func (c *Content) WithFileInfoDefaults(umask fs.FileMode, mtime time.Time) *Cont
 	}
 	if cc.FileInfo == nil {
 		cc.FileInfo = &ContentFileInfo{}
+	} else {
+		// do not write defaults through the pointer shared with the caller
+		fi := *cc.FileInfo
+		cc.FileInfo = &fi
 	}
 	if cc.FileInfo.Owner == "" {
 		cc.FileInfo.Owner = "root"
